@@ -128,7 +128,7 @@ class Ctx:
 
     def _known(self, inv: str, site: str, detail: str) -> dict[str, Any] | None:
         for k in self.known:
-            if k["invariant"] != inv:
+            if k["invariant"] not in ("*", inv):
                 continue
             if k.get("site") and k["site"] != site:
                 continue
